@@ -5,7 +5,7 @@ package main
 var propLevel = map[string]string{
 	"C01": "proof", "C02": "proof", "C03": "other", "C04": "proof", "C05": "proof", "C06": "proof", "C07": "proof",
 	"C08": "proof", "C09": "proof", "C10": "proof", "C11": "other", "C12": "other", "C13": "proof", "C14": "other",
-	"C16": "proof", "C17": "other", "C18": "proof", "C19": "proof",
+	"C16": "proof", "C17": "other", "C18": "other", "C19": "proof",
 }
 
 func levelOf(p string) string {
